@@ -340,7 +340,8 @@ def snapshot(solver, rec, msg=None):
         ehist=[fl(e) for e in solver.energy_history], shist=[_vec(x) for x in solver.solution_history],
         emx=emx, emy=emy, ncalls=len(rec.cost_calls), msg=msg_kind(msg), ncb=len(rec.cb), nstep=rec.nstep,
         term_now=_term_now(solver), exitreq=bool(solver._EARLYEXIT), nsm=len(solver._stepmon),
-        maxiter=_lim(solver._maxiter), maxfun=_lim(solver._maxfun), live=bool(solver._live))
+        maxiter=_lim(solver._maxiter), maxfun=_lim(solver._maxfun), live=bool(solver._live),
+        synced=(solver._energy_history is None))
 
 
 def _term_now(solver):
